@@ -77,7 +77,9 @@ PROGRAMS = [
     P('new_3', ('new', 3)),
 ]
 BY_NAME = {p['name']: p for p in PROGRAMS}
-TRIPLE_CORE = ['rmw_x', 'ry_wx', 'blind_y', 'rmw_f', 'fu_rmw_x', 'nonopt_rmw_x', 'del_1', 'rmw_1x_rmw_2x']
+TRIPLE_CORE = ['rmw_x', 'ry_wx', 'blind_y', 'rmw_f', 'fu_rmw_x', 'del_1']
+QUICK_CORE = ['rmw_x', 'rmw_s', 'ry_wx', 'rx_wy', 'x_from_y', 'blind_x', 'blind_y', 'rmw_f', 'rf_wx', 'blind_f', 'rn_wx', 'blind_n',
+              'rv_wx', 'blind_v', 'qx_wy', 'fu_rmw_x', 'ry_then_fu_wx', 'nonopt_rmw_x', 'ry_load_wx', 'del_1']
 QUICK_TRIPLE_CORE = ['rmw_x', 'ry_wx', 'blind_y', 'fu_rmw_x']
 XCHECK = [('rmw_x', 'ry_wx'), ('rmw_x', 'fu_rmw_x'), ('blind_y', 'ry_load_wx')]
 
@@ -86,7 +88,7 @@ def work_items(ctx):
     pairs = list(itertools.combinations_with_replacement(names, 2))
     items = []
     if ctx.quick:
-        items += [('pair', pr, 2, 'visible') for pr in pairs]
+        items += [('pair', pr, 2 if (pr[0] in QUICK_CORE and pr[1] in QUICK_CORE) else 1, 'visible') for pr in pairs]
         items += [('triple', tr, 1, 'visible') for tr in itertools.combinations_with_replacement(QUICK_TRIPLE_CORE, 3)]
         items += [('xcheck', pr, 1, 'all') for pr in XCHECK[:2]]
     else:
@@ -107,82 +109,11 @@ def judge(v, counters):
     out += L.mon_unexpected(v)
     return out
 
-def explore_item(item, seed, sub, judge_fn=judge, prop='C20', by_name=None):
-    """explore one program tuple; returns the stats dict of the explorer + outcome set"""
-    import random
-    kind, names, bound, points = item
-    progs = [(by_name or BY_NAME)[n] for n in names]
-    world = L.make_world()
-    try:
-        ex = tx.Explorer(world, [L.body_of(p) for p in progs], observe=True, points=points)
-        outcomes, counters, reported = set(), {}, set()
-        def visit(x):
-            v = L.View(world, progs, x)
-            outcomes.add(v.outcome())
-            if x.waits: counters['executions_with_a_session_waiting_on_the_lock'] = counters.get('executions_with_a_session_waiting_on_the_lock', 0) + 1
-            for r_ in v.res:
-                if r_['status'] == 'exc': counters['exc_' + r_['cls']] = counters.get('exc_' + r_['cls'], 0) + 1
-            for sig, msg in judge_fn(v, counters):
-                if sig not in reported:
-                    reported.add(sig)
-                    tx.check_replay(ex, x)          # must reproduce identically before it is reported
-                sub.violation(sig, L.case_of(prop, progs, x, dict(points=points, trace=x.describe(40))), msg)
-            if ex.executions in (2, 5) and kind != 'xcheck': samples.append(L.sample_of(progs, x, v, 24))
-        samples = []
-        st = ex.explore(bound, visit, rng=random.Random(seed) if seed else None)
-        if kind != 'xcheck' and ex.executions:
-            tx.check_replay(ex, ex.run(()))         # determinism spot check on every program tuple
-        for k, n in counters.items(): sub.count(k, n)
-        st['outcomes'] = sorted(outcomes, key=repr)
-        st['samples'] = samples
-        return st
-    finally:
-        world.close()
-
 def worker(arg):
     item, seed = arg
     sub = core.Sub()
-    st = explore_item(item, seed, sub)
+    st = L.explore_item(item, seed, sub, 'C20', [BY_NAME[n] for n in item[1]], judge)
     return dict(item=item, sub=sub.dump(), stats=st)
-
-def merge(ctx, results):
-    """deterministic aggregation (sorted by item) of worker results"""
-    agg = dict(states=0, transitions=0, executions=0, traces=0, deadlocks=0, outcomes=0, by_pre={}, per_kind={}, bounds={})
-    xsets = {}
-    for res in sorted(results, key=lambda r: repr(r['item'])):
-        kind, names, bound, points = res['item']
-        st = res['stats']
-        core.absorb(ctx, res['sub'])
-        if kind == 'xcheck':
-            xsets[tuple(names)] = (st['outcomes'], st['executions'])
-            ctx.count('xcheck_executions_all_points', st['executions'])
-            continue
-        agg['states'] += st['states']; agg['transitions'] += st['transitions']; agg['executions'] += st['executions']
-        agg['traces'] += st['distinct_traces']; agg['deadlocks'] += st['deadlocks']; agg['outcomes'] += len(st['outcomes'])
-        for k, n in st['by_preemptions'].items(): agg['by_pre'][k] = agg['by_pre'].get(k, 0) + n
-        pk = agg['per_kind'].setdefault(kind, dict(program_tuples=0, executions=0, tuples_with_more_than_one_outcome=0))
-        pk['program_tuples'] += 1; pk['executions'] += st['executions']
-        pk['tuples_with_more_than_one_outcome'] += len(st['outcomes']) > 1
-        agg['bounds'].setdefault(kind, set()).add(str(st['bound_completed']))
-        if st['capped']: ctx.cap('execution cap hit for %r' % (names,))
-        for s in st['samples']: ctx.sample(s)
-    agg['xsets'] = xsets
-    return agg
-
-def xcheck(ctx, agg, results, by_name=None):
-    """the point reduction (cursor/connect/close/PRAGMA/no-op commit are not scheduling points) must not
-    change the set of outcomes: explore the same tuples with EVERY driver call as a point"""
-    ref = {}
-    for res in results:
-        kind, names, bound, points = res['item']
-        if kind != 'xcheck': ref.setdefault(tuple(names), set()).update(map(repr, res['stats']['outcomes']))
-    n = 0
-    for names, (outs, execs) in sorted(agg['xsets'].items()):
-        full = set(map(repr, outs))
-        if not full <= ref.get(names, set()) :
-            raise core.HarnessError('point reduction lost/changed outcomes for %r' % (names,))
-        n += 1
-    ctx.count('xcheck_tuples_all_points_outcomes_contained', n)
 
 # ---- PostgreSQL emission ----------------------------------------------------------------------------
 def pg_part(ctx):
@@ -241,8 +172,8 @@ def run(ctx):
     items = work_items(ctx)
     order = ctx.shuffled(items)
     results = ctx.pmap(worker, [(it, ctx.seed) for it in order])
-    agg = merge(ctx, results)
-    xcheck(ctx, agg, results)
+    agg = L.merge(ctx, results)
+    L.xcheck(ctx, agg, results)
     pg_part(ctx)
     c = ctx.counters
     ctx.guard('schedules in which OptimisticCheckError occurred', c.get('OptimisticCheckError', 0), 500)
@@ -254,19 +185,14 @@ def run(ctx):
     ctx.guard('program pairs with more than one distinct outcome', agg['per_kind']['pair']['tuples_with_more_than_one_outcome'], 100)
     ctx.guard('PostgreSQL UPDATE statements with a non-empty read set', c.get('pg_updates_with_nonempty_read_set', 0), 8)
     ctx.guard('all-points cross-check tuples', c.get('xcheck_tuples_all_points_outcomes_contained', 0), 2)
-    ctx.cov.update(distinct_traces=agg['traces'], distinct_outcomes_summed_over_program_tuples=agg['outcomes'],
-                   executions_by_preemptions=agg['by_pre'], deadlocks=agg['deadlocks'], per_kind=agg['per_kind'],
-                   preemption_bound_completed={k: sorted(v) for k, v in agg['bounds'].items()},
-                   programs=len(PROGRAMS),
-                   bounds=('pairs: preemption bound 2; triples of %d core programs: bound 1' % len(QUICK_TRIPLE_CORE)) if ctx.quick else
-                          ('pairs: all interleavings; triples of %d core programs: preemption bound 3' % len(TRIPLE_CORE)))
-    if ctx.quick: ctx.cov['exhaustive'] = True      # the stated bounded space (bound 2 / bound 1) is covered completely
+    out = L.coverage(ctx, agg)
+    ctx.cov.update(programs=len(PROGRAMS),
+                   bounds=('pairs: preemption bound 2 inside the %d-program core, bound 1 otherwise; triples of %d programs: bound 1'
+                           % (len(QUICK_CORE), len(QUICK_TRIPLE_CORE))) if ctx.quick else
+                          ('pairs: all interleavings; triples of %d programs: preemption bound 3' % len(TRIPLE_CORE)))
+    ctx.cov['exhaustive'] = True      # the stated bounded space is covered completely (caps would reset this)
     ctx.assume('SQLite only for behaviour; PostgreSQL: UPDATE text on a statement-log connection (DM transaction model), server behaviour out of reach')
-    ctx.assume('scheduling points: execute/executemany, commit/rollback inside a transaction, acquires of the provider locks; '
-               'cursor()/connect/close/connection-local PRAGMA/no-op commit+rollback are folded into the preceding transition '
-               '(cross-checked against all-driver-calls-are-points on %d tuples)' % len(agg['xsets']))
-    ctx.assume('timeout=0: SQLite busy conflicts are immediate errors; cooperative scheduling hides races inside one transition')
-    return dict(states=agg['states'], transitions=agg['transitions'], traces_validated_against_impl=agg['executions'])
+    return out
 
 def replay(ctx, case):
     progs = case['programs']
